@@ -97,7 +97,7 @@ func runIngest(a *Analyzer, r *Results) {
 			// cache container invariant (rules F2.*, F2.key, F3.*, F6.key, F7 decide it): a message read from the
 			// cache at key K was inserted under the FILTER guards with key = its own height
 			w.Inject = func(e *Effect) []*Atom {
-				if e.Kind != "call" || len(e.Args) < 2 || e.Path[len(e.Path)-1].Fn != idE2 {
+				if e.Kind != "call" || len(e.Args) < 2 || !(e.Path[len(e.Path)-1].Fn == idE2 || (len(e.Path) > 1 && e.Path[len(e.Path)-2].Fn == idE2)) {
 					return nil
 				}
 				m := e.Args[len(e.Args)-1]
